@@ -219,6 +219,19 @@ def _eval_inner(case):
                     ck.msgs.append("%s is not the first %d rows of its full counterpart" % (name, cpt))
         if I.comps(a) != a_st or I.comps(b) != b_st:
             ck.msgs.append("a Jacobian method mutated an operand")
+        # a caller may edit a returned matrix in place (e.g. to weight it): later calls must not be affected
+        for name, opn, wrt, compact in BINARY:
+            J1 = getattr(a, name)(b)
+            keep = np.array(J1, dtype=float, copy=True)
+            try:
+                J1 *= 0.0
+                J1 += 7.0
+            except Exception:
+                pass
+            J2 = np.asarray(getattr(a, name)(b), dtype=float)
+            ck.nops += 1
+            if J2.shape != keep.shape or not np.array_equal(J2, keep):
+                ck.msgs.append("%s: editing a returned matrix in place changes what later calls return (shared result object)" % name)
         return ck.msgs, ck.ratio, ck.nontriv, ck.nops
     if t == "point":
         pk = I.POINT_OF[kind]
@@ -236,6 +249,16 @@ def _eval_inner(case):
                 for k in range(amb):
                     fd = _fd_ambient(lambda x: (x + p).to_array(), kind, a_st, k, pk)
                     ck.vec("jacobian_self_oplus_point_wrt_self, ambient column %d" % k, J1[:, k], fd)
+        for name in ("jacobian_self_oplus_point_wrt_self", "jacobian_self_oplus_point_wrt_point"):
+            J1 = getattr(a, name)(p)
+            keep = np.array(J1, dtype=float, copy=True)
+            try:
+                J1 *= 0.0
+                J1 += 7.0
+            except Exception:
+                pass
+            if not np.array_equal(np.asarray(getattr(a, name)(p), dtype=float), keep):
+                ck.msgs.append("%s: editing a returned matrix in place changes what later calls return (shared result object)" % name)
         J2 = np.asarray(a.jacobian_self_oplus_point_wrt_point(p), dtype=float)
         if ck.shape("jacobian_self_oplus_point_wrt_point", J2, (pd, pd)):
             for k in range(pd):
@@ -244,6 +267,16 @@ def _eval_inner(case):
         return ck.msgs, ck.ratio, ck.nontriv, ck.nops
     # unary
     ck = _Ck(sc)
+    for name in ("jacobian_boxplus", "jacobian_inverse"):
+        J1 = getattr(a, name)()
+        keep = np.array(J1, dtype=float, copy=True)
+        try:
+            J1 *= 0.0
+            J1 += 7.0
+        except Exception:
+            pass
+        if not np.array_equal(np.asarray(getattr(a, name)(), dtype=float), keep):
+            ck.msgs.append("%s: editing a returned matrix in place changes what later calls return (shared result object)" % name)
     Jb = np.asarray(a.jacobian_boxplus(), dtype=float)
     if ck.shape("jacobian_boxplus", Jb, (amb, cpt)):
         for d in range(cpt):
